@@ -75,8 +75,8 @@ def check (A : ArchInfo) (e : Endian) (p : Policy) (prog : List Instr) : String 
       let v := c.val.toNat
       around v two64 ++ [v % two32, (v / two32) * two32, (v % two32) * two32 + v / two32,
         two64 - 1 - v, satisfying c] ++ acc) []) ++
-      [0, 1, two32 - 1, two32, two32 + 1, two64 - 1] ++ (nums.take 6) ++
-      (nums.take 3).map (fun n => n * two32) ++ (consts.take 6) ++ (consts.take 6).map (· * two32))
+      [0, 1, two32 - 1, two32, two32 + 1, two64 - 1] ++ (nums.take 12) ++ ((allNums.reverse).take 6) ++
+      (nums.take 8).map (fun n => n * two32) ++ (nums.take 6).map (fun n => n * two32 + n) ++ (consts.take 6) ++ (consts.take 6).map (· * two32))
   let cands := cands.take (if prog.length > 300 then 14 else if prog.length > 100 then 24 else 48)
   -- base vectors: zeros, ones, and one per condition list that tries to satisfy it
   let lists := p.groups.foldl (fun acc g => g.withConds.foldl (fun acc nc => nc.conds :: acc) acc) []
@@ -96,6 +96,43 @@ def check (A : ArchInfo) (e : Endian) (p : Policy) (prog : List Instr) : String 
         n := n + 1
         if got ≠ .ret want then
           return s!"CEX {renderEvent nr arch args} expected ret:{want.toNat} got {resultStr got}"
+  return s!"AGREE {n}"
+
+end Oracle
+
+namespace Oracle
+
+/-- offsets loaded and constants compared by a label program -/
+def tokFacts {L : Type} (toks : List (Tok L)) : List Nat × List Nat :=
+  toks.foldl (fun (acc : List Nat × List Nat) t => match t with
+    | .ins (.ld off) => (if acc.1.contains off then acc.1 else off :: acc.1, acc.2)
+    | .ins (.jif _ k _ _) => (acc.1, if acc.2.contains k.toNat then acc.2 else k.toNat :: acc.2)
+    | _ => acc) ([], [])
+
+/-- failing-input search for C06: the implementation's instruction list against the label-level meaning
+    of the builder call sequence, on word assignments built from the compared constants -/
+def checkBuilder {L : Type} [DecidableEq L] (toks : List (Tok L)) (prog : List Instr) : String := Id.run do
+  let (offs, consts) := tokFacts toks
+  let vals := dedupNat ((consts.take 24).foldl (fun acc k => around k two32 ++ acc) [] ++ [0, 1, two32 - 1, 0x7fffffff, 0x80000000])
+  let mut n := 0
+  -- every word holds the same value
+  for v in vals do
+    let w : Nat → Word := fun _ => BitVec.ofNat 32 v
+    n := n + 1
+    let want := runT w toks 0#32
+    let got := run w prog 0#32
+    if want ≠ got then
+      return s!"CEX all-words={v} label-program {resultStr want} assembled {resultStr got}"
+  -- one offset differs from the others
+  for o in offs.take 8 do
+    for v in vals.take 16 do
+      for u in vals.take 6 do
+        let w : Nat → Word := fun off => if off = o then BitVec.ofNat 32 v else BitVec.ofNat 32 u
+        n := n + 1
+        let want := runT w toks 0#32
+        let got := run w prog 0#32
+        if want ≠ got then
+          return s!"CEX word[{o}]={v} other-words={u} label-program {resultStr want} assembled {resultStr got}"
   return s!"AGREE {n}"
 
 end Oracle
